@@ -276,7 +276,7 @@ func loadFromMemory(interp *Interpreter, offset uint32, vx uint32) (uint64, Exit
 	pageIndex := vx % ZP
 
 	page, ok := mem.Pages[pageNum]
-	if !ok {
+	if !ok || page.Access == MemoryInaccessible {
 		return 0, ExitPageFault | ExitReason(vx)
 	}
 
@@ -297,7 +297,7 @@ func loadFromMemory(interp *Interpreter, offset uint32, vx uint32) (uint64, Exit
 
 	// Cross-page slow path: assemble bytes into a stack buffer.
 	nextPage, ok := mem.Pages[pageNum+1]
-	if !ok {
+	if !ok || nextPage.Access == MemoryInaccessible {
 		return 0, ExitPageFault | ExitReason(vx)
 	}
 
